@@ -388,9 +388,72 @@ Definition run_fcase (c : fcase) : verdict :=
           (fold_left N.lor (map (probe_corr c) (f_probes c)) 0%N),
     oracle_probes c [] (f_probes c))).
 
-Inductive case := Std (c : scase) | Fit (c : fcase).
+(* ---------------------------------------------------------------- (f) binary32 fits *)
+(** The validity oracle for GaussianMixtureModel::<f32>: the conjuncts of [gmm_bits] evaluated exactly (every
+    binary32 value is a binary64 value, the harness widens the outputs) with binary32 tolerances (eps32 = 2^-24):
+    weights sum to one within 2^-20; mean coordinates in the bounding box with slack 2^-16 relative; covariances
+    symmetric within 2^-18 of the largest diagonal entry, symmetric part positive definite (exact LDL^T), still
+    and not singular to working precision ([pivots_wp32]), still positive semi-definite without
+    (1 - 2^-10) reg_covar; every entry of precision x covariance within 2^-20 d^2 |P|_max |S|_max of the
+    identity's; probability rows finite, non-negative, summing to one within
+    2^-18 (16 + max_j d^2 |x - mu_j|_inf^2 |P_j|_max); predicted component of maximal probability *)
+Definition t16 : Q := pow2m 16.
+Definition t18 : Q := pow2m 18.
+Definition t20 : Q := pow2m 20.
+Definition weights_ok32 (k : nat) (w : list Q) : bool :=
+  Nat.eqb (length w) k && forallb (fun x => Qltb 0 x) w && Qleb (Qabs' (Qsum w - 1)) t20.
+Definition coord_in_box32 (b : float * float) (v : Q) : bool :=
+  let lo := f64_Qr (fst b) in let hi := f64_Qr (snd b) in
+  let s := t16 * (Qmax' (Qabs' lo) (Qabs' hi) + (hi - lo)) in Qleb (lo - s) v && Qleb v (hi + s).
+Definition mean_in_bbox32 (box : list (float * float)) (mu : list Q) : bool :=
+  Nat.eqb (length mu) (length box) && forallb (fun bv => coord_in_box32 (fst bv) (snd bv)) (combine box mu).
+Definition sym_within32 (d : nat) (S : Qmat) : bool :=
+  let tol := t18 * fold_left (fun a i => Qmax' a (Qabs' (nth i (nth i S []) 0%Q))) (seq 0 d) 0%Q in
+  forallb (fun i => forallb (fun j =>
+     Qleb (Qabs' (nth j (nth i S []) 0%Q - nth i (nth j S []) 0%Q)) tol) (seq 0 d)) (seq 0 d).
+Definition prec_ok32 (d : nat) (P S : Qmat) : bool :=
+  rectb d d P && rectb d d S &&
+  let tol := t20 * inject_Z (Z.of_nat (d * d)) * maxabs P * maxabs S in
+  forallb (fun i => forallb (fun j =>
+     Qleb (Qabs' (Qdot_fast (nth i P []) (colQ j S) - kron i j)) tol) (seq 0 d)) (seq 0 d).
+(** not singular to working precision: every pivot of the exact LDL^T factorisation (natural order, the order
+    of the implementation's Cholesky factorisation) exceeds (d + 2) 2^-24 S_jj - half the threshold
+    (d + 2) eps32 S_jj below which compute_precisions_cholesky_full must answer NotPositiveDefinite (41f7336);
+    the other half is the allowance for the rounding of the float pivot *)
+Definition pivots_wp32 (d : nat) (S : Qmat) : bool :=
+  let piv := ldl_pivots d S in
+  Nat.eqb (length piv) d &&
+  forallb (fun j => Qltb (inject_Z (Z.of_nat (d + 2)) * pow2m 24 * nth j (nth j S []) 0%Q) (nth j piv 0%Q)) (seq 0 d).
+Definition row_tol32 (d : nat) (mps : list (list Q * Q)) (x : list Q) : Q :=
+  t18 * (16 + fold_left Qmax' (map (fun mP => maha_bound d x (fst mP) (snd mP)) mps) 0%Q).
+
+Definition gmm_bits32 (X : list (list float)) (k d : nat) (reg : float) (m : fitted)
+                      (query proba : list (list float)) (pred : list N) : N :=
+  if negb (Nat.eqb (length X) 0) && fin_mat X && f64_finite reg && params_finite m && shapes_ok k d m
+     && fin_mat query && rectb (length query) d query
+     && Nat.eqb (length proba) (length query) && Nat.eqb (length pred) (length query) then
+    let box := bbox X d in
+    let mus := Qm (m_means m) in
+    let covs := map Qm (m_covs m) in
+    let precs := map Qm (m_precs m) in
+    let r := f64_Qr reg in
+    let mps := combine mus (map maxabs precs) in
+    (flagN (weights_ok32 k (Qv (m_weights m))) 2
+     + flagN (forallb (mean_in_bbox32 box) mus) 4
+     + flagN (forallb (fun S => sym_within32 d S && ldl_pd d S && pivots_wp32 d S) covs) 8
+     + flagN (forallb (cov_has_reg d r) covs) 16
+     + flagN (forallb (fun PS => prec_ok32 d (fst PS) (snd PS)) (combine precs covs)) 32
+     + flagN (forallb (fun xr => proba_row_valid k (row_tol32 d mps (Qv (fst xr))) (snd xr)) (combine query proba)) 64
+     + flagN (forallb (fun rp => pred_is_max (fst rp) (snd rp)) (combine proba pred)) 128)%N
+  else 1%N.
+
+Definition run_case32 (c : scase) : verdict :=
+  (c_id c, (corr_predict c,
+            gmm_bits32 (c_X c) (N.to_nat (c_k c)) (N.to_nat (c_d c)) (c_reg c) (fitted_of c) (c_query c) (c_proba c) (c_pred c))).
+
+Inductive case := Std (c : scase) | Fit (c : fcase) | F32 (c : scase).
 
 Definition run_case (c : case) : verdict :=
-  match c with Std s => run_scase s | Fit f => run_fcase f end.
+  match c with Std s => run_scase s | Fit f => run_fcase f | F32 s => run_case32 s end.
 
 Definition run_cases (cs : list case) : list N := report (map run_case cs).
